@@ -418,6 +418,7 @@ func (e *esdt) createNewTokenIdentifier(caller []byte, ticker []byte) ([]byte, e
 	newRandomAsBigInt := big.NewInt(0).SetBytes(newRandomForTicker)
 
 	one := big.NewInt(1)
+	limit := big.NewInt(0).Lsh(one, 8*tickerRandomSequenceLength)
 	for i := 0; i < numOfRetriesForIdentifier; i++ {
 		encoded := fmt.Sprintf("%06x", newRandomAsBigInt)
 		newIdentifier := append(tickerPrefix, encoded...)
@@ -426,6 +427,8 @@ func (e *esdt) createNewTokenIdentifier(caller []byte, ticker []byte) ([]byte, e
 			return newIdentifier, nil
 		}
 		newRandomAsBigInt.Add(newRandomAsBigInt, one)
+		// the random sequence has exactly tickerRandomSequenceLength bytes: wrap around after ffffff
+		newRandomAsBigInt.Mod(newRandomAsBigInt, limit)
 	}
 
 	return nil, vm.ErrCouldNotCreateNewTokenIdentifier
